@@ -3,6 +3,8 @@
 
 pub mod c03;
 pub mod c04;
+pub mod c08;
+pub mod c09;
 pub mod c10;
 pub mod c11;
 pub mod c12;
